@@ -16,9 +16,11 @@ I1  always: a container directory is the target of at most one link among
     instance.
 I3  always: a container that has been seen with exitinfo|aborted|oom, or with
     a cleanup link, never *gains* a running link afterwards.
-I4  manager steps: a running link whose container is unfinished and whose
-    cache entry (same generation) is present when the handler runs is still
-    there after the handler.
+I4  manager steps and node-monitor steps: a running link whose container is
+    unfinished and whose cache entry (same generation) is present when the
+    handler runs is still there after the handler.  (At a monitor step
+    "unfinished" also excludes the containers whose supervised process the
+    environment ended - that is what the monitor is there to hand over.)
 I5  a delivered "deleted" event for an instance with no cache entry, manager
     active: the instance has no running link afterwards and the container that
     had it has a cleanup link.
@@ -201,10 +203,12 @@ class Oracle:
 
     # ------------------------------------------------------------------
     def step(self, kind, step_name, prov, event=None, sync=False,
-             active=False):
+             active=False, tombs=()):
         """Evaluate the step that led from self.prev to the current listing.
 
-        kind: 'manager' (a handler ran) or 'env' (another actor acted).
+        kind: 'manager' (a handler returned), 'manager-crash' (the manager
+        died inside a handler on an injected s6 failure), 'monitor' (the node
+        monitor ran; tombs = what it executed) or 'env' (another actor).
         Returns a list of (mechanism, message, witness)."""
         prev = self.prev
         cur = Snapshot(self.node, self.ident)
@@ -212,8 +216,9 @@ class Oracle:
         self._note_origin(prev, cur, prov)
         out += self._i1(cur, prov)
         out += self._i3(prev, cur, prov)
+        if kind in ('manager', 'manager-crash', 'monitor'):
+            out += self._i4(prev, cur, prov, event, kind, tombs)
         if kind == 'manager':
-            out += self._i4(prev, cur, prov, event)
             if (event is not None and event[0] == 'deleted'
                     and event[1] != '.ready' and active):
                 out += self._i5(prev, cur, prov, event[1])
@@ -224,6 +229,7 @@ class Oracle:
         if out:
             witness = {'before': prev.describe(), 'after': cur.describe(),
                        'step': step_name, 'event': event,
+                       'tombstones_executed': [list(t) for t in tombs],
                        'calls': [list(c) for c in prov.calls][:40]}
             out = [(m, msg, witness) for (m, msg) in out]
         return out
@@ -280,7 +286,7 @@ class Oracle:
         return out
 
     # -- I4 ---------------------------------------------------------------
-    def _i4(self, prev, cur, prov, event):
+    def _i4(self, prev, cur, prov, event, kind='manager', tombs=()):
         out = []
         for name, target in sorted(prev.running.items()):
             if target is None or target not in prev.apps:
@@ -295,6 +301,10 @@ class Oracle:
                 continue
             if len(prev.links_to(target)) != 1:
                 continue
+            if kind == 'monitor':
+                if target in self.node.ended:
+                    continue
+                self._count('i4_monitor_step_evaluations')
             self._count('i4_unchanged_running_evaluations')
             if cur.running.get(name) == target:
                 continue
@@ -305,6 +315,12 @@ class Oracle:
             if event is not None and event[0] == 'deleted' \
                     and event[1] == name:
                 ctx = 'stale-deleted-event'
+            hits = [t for t in tombs if t[0] == name]
+            if kind == 'monitor' and hits:
+                ctx = 'stale-tombstone-%s(%s)' % (
+                    're-executed' if max(t[2] for t in hits) > 1
+                    else 'first-execution',
+                    str(hits[0][6]))
             out.append(('unchanged-running-removed:%s:%s' % (who, ctx),
                         'running/%s -> %s removed although cache/%s is still '
                         'generation %d and the container has not finished'
